@@ -12,7 +12,6 @@ def table : List ModelEntries :=
   [ Entries.stopsource
   , Entries.mutexv1
   , Entries.mutexv2
-  , Entries.mutexv2fix
   , Entries.alist
   ]
 
